@@ -1,8 +1,10 @@
 // Harness for C15 (parameter sets and slice headers parse to the values that were coded).
-//   c15 corr   -cases FILE [-repo DIR]  : every case line + the implementation's outcome and flattened result
-//                                          (+ the captured parameter sets found in the repository's test data)
-//   c15 search -cases FILE              : evaluates the property itself: the implementation's result on the
-//                                          NAL unit produced by the independent serialiser vs the coded values
+//
+//	c15 corr   -cases FILE [-repo DIR]  : every case line + the implementation's outcome and flattened result
+//	                                       (+ the captured parameter sets found in the repository's test data)
+//	c15 search -cases FILE              : evaluates the property itself: the implementation's result on the
+//	                                       NAL unit produced by the independent serialiser vs the coded values
+//
 // Case lines come from the model driver (GEN): KIND id arg naluhex g expected.
 package main
 
